@@ -15,6 +15,7 @@
 #include "vcommon.hpp"
 #include "ntt_goldilocks.hpp"
 #include "poseidon_goldilocks.hpp"
+#include "goldilocks_cubic_extension.hpp"
 #include <thread>
 #ifndef FREE_RUNNING
 #include "teamsched.hpp"
@@ -218,6 +219,8 @@ int main(int argc, char **argv)
     // share no state, so concurrent callers on disjoint data must not race and must get the sequential results.
     {
         const int NT = 6, REP = args.thorough() ? 400 : 60;
+        std::vector<u64> batch_lens = {9, 1000};
+        for (u64 L : culist(args.kv, "lits")) if (L + 1 <= 70000) { batch_lens.push_back(L + 1); if (2 * L + 1 <= 70000) batch_lens.push_back(2 * L + 1); }
         auto battery = [&](int id, std::vector<u64> &out) {
             for (int r = 0; r < REP; r++)
             {
@@ -260,6 +263,30 @@ int main(int argc, char **argv)
                 for (int i = 0; i < 20; i++) in20[i].fe = x ^ (u64)i;
                 PoseidonGoldilocks::linear_hash(d4, in20, 20);
                 out.push_back(d4[3].fe);
+                // cubic extension: product, inverse, batch inverse (a short batch every round)
+                Goldilocks3::Element ca, cb, cc;
+                for (int i = 0; i < 3; i++) { ca[i].fe = x + 3 * i + 1; cb[i].fe = (x >> 7) + i + 2; }
+                Goldilocks3::mul(cc, ca, cb);
+                out.push_back(cc[1].fe % GP);
+                Goldilocks3::inv(cc, ca);
+                out.push_back(cc[2].fe % GP);
+                {
+                    std::vector<u64> src(3 * 5), res(3 * 5);
+                    for (size_t i = 0; i < src.size(); i++) src[i] = x + i + 1;
+                    Goldilocks3::batchInverse((Goldilocks3::Element *)res.data(), (Goldilocks3::Element *)src.data(), 5);
+                    out.push_back(res[7] % GP);
+                }
+            }
+            // long batches: lengths just above the integer constants of the library source (a scratch buffer that is
+            // only used above a threshold must still be private to the caller)
+            for (u64 L : batch_lens)
+            {
+                std::vector<u64> src(3 * L), res(3 * L);
+                for (size_t i = 0; i < src.size(); i++) src[i] = (u64)(id + 2) * 0x9E3779B97F4A7C15ULL + i * 0x100000001ULL + 1;
+                Goldilocks3::batchInverse((Goldilocks3::Element *)res.data(), (Goldilocks3::Element *)src.data(), L);
+                u64 h = 1469598103934665603ULL;
+                for (u64 v : res) { h ^= v % GP; h *= 1099511628211ULL; }
+                out.push_back(h);
             }
         };
         std::vector<std::vector<u64>> seq(NT), par(NT);
